@@ -53,6 +53,8 @@ def run_property(pid, spec: PropertySpec, tier, seed, t0):
     known = load_known()
     open_kf = [k for k in known.get("open", []) if k["property"] == pid]
     os.environ["PYVC_PROPERTY"] = pid
+    from pyvc import engine as _engine
+    _engine.set_property(pid)
     os.environ["PYVC_TIER"] = tier
     lines = []
     violations = []
